@@ -335,6 +335,11 @@ class _Oracle(pyoracle.Oracle):
         return ns
 
 
+import re as _re
+# results reported by the leaf functions and helper callees of HEADER (not the observations of the statement contexts)
+_CALLEE_TAG = _re.compile(r"^(?:(?:f|g|pg|pk|pk2_)\d|h2|idf|add|mkacc|touch)$")
+
+
 def eval_program(item):
     kinds, lines, nleaf = item
     src = source(lines)
@@ -389,7 +394,7 @@ def eval_program(item):
                         else:
                             extra = None
                             break
-                    if extra and r.status == st and all(e in want and e[0] == "result" and e[1][0] in "fgp" for e in extra):
+                    if extra and r.status == st and all(e in want and e[0] == "result" and _CALLEE_TAG.match(str(e[1])) for e in extra):
                         cls = "duplicated-effect"
                     else:
                         cls = "different-effects"
@@ -399,6 +404,12 @@ def eval_program(item):
                     res["dis_all"].append({"class": cls, "input": args, "python": [st, want], "guppy": [r.status, got],
                                            "schedules": len(runs), "choices": [c[1] for c in r.choices]})
                 break
+    # One root cause, one class: when a program shows a pure ORDER (or multiplicity) deviation on inputs that run to the
+    # end, the same deviation cut short by a panic on other inputs (an effect missing or extra in front of the panic)
+    # is that deviation, not a further one.  Programs that only ever differ in the presence of a panic keep the class.
+    base = {d["class"] for d in res["dis_all"]} & {"wrong-order", "order-not-enforced", "duplicated-effect"}
+    if base:
+        res["dis_all"] = [d for d in res["dis_all"] if not (d["class"] == "different-effects" and "panic" in (d["python"][0], d["guppy"][0]))]
     res["dis"] = res["dis_all"][0] if res["dis_all"] else None
     return res
 
